@@ -550,7 +550,10 @@ pub fn run_case(cx: &mut Ctx, dag: &Dag, kind: &str, to_coq: bool) -> Outcome {
     if dag.misuse_width() {
         cx.st.count("oracle.skipped_misuse_width");
     } else if let Some(why) = oracle(dag, &out) {
-        cx.st.oracle_failure(json!({"key": dag.key(), "kind": kind, "dag": dag.canon(), "why": why}));
+        // one stable key per failure class (known_findings.json matches on it); the input is in "dag"
+        let key = if why.contains("cycle or something") { "panic:cycle-or-something".to_string() } else { dag.key() };
+        cx.st.count(&format!("oracle_failure.{key}"));
+        cx.st.oracle_failure(json!({"key": key, "kind": kind, "dag": dag.canon(), "why": why}));
     } else if let Outcome::Bytes(b) = &out {
         // duplication happened iff the output is longer than the sum of distinct reachable objects
         let reach = dag.reachable();
